@@ -18,6 +18,8 @@ theorem step_closed_stable {g : Cfg} {s s' : St} {o : Op} (hs : step g s o = som
   | clearBoth => simp [step, hc] at hs; cases hs; exact ⟨hc, rfl⟩
   | ka n => simp [step, hc] at hs; cases hs; exact ⟨hc, rfl⟩
   | wto n => simp [step, hc] at hs; cases hs; exact ⟨hc, rfl⟩
+  | dial n => simp [step, hc] at hs; cases hs; exact ⟨hc, rfl⟩
+  | connected => simp [step, hc] at hs; cases hs; exact ⟨hc, rfl⟩
   | write k => simp [step, stepWrite, hc] at hs; cases hs; exact ⟨hc, rfl⟩
   | flush k => simp [step, stepFlush, hc] at hs; cases hs; exact ⟨hc, rfl⟩
   | close => simp [step, closeWith, hc] at hs; cases hs; exact ⟨hc, rfl⟩
@@ -56,6 +58,7 @@ def arms (d : Dir) : Op → Bool
   | .setBoth _ => true
   | .ka _ => d == .r
   | .wto _ => d == .w
+  | .dial _ => d == .w
   | _ => false
 
 /-- "nothing of `d` can fire any more": no active timer, no started callback, not closed by `d` -/
@@ -129,6 +132,16 @@ theorem quiet_step {g : Cfg} {d : Dir} {s s' : St} {o : Op} (h : Quiet d s) (ho 
     split
     · exact h
     · exact quiet_arm_other h (by intro he; subst he; simp [arms] at ho) _
+  | dial n =>
+    simp only [step] at hs; cases hs
+    split
+    · exact h
+    · exact quiet_arm_other h (by intro he; subst he; simp [arms] at ho) _
+  | connected =>
+    simp only [step] at hs; cases hs
+    split
+    · exact h
+    · exact quiet_stop h .w
   | write k =>
     simp only [step] at hs; cases hs
     unfold stepWrite
@@ -282,6 +295,16 @@ theorem only_step {g : Cfg} {d : Dir} {t' : Nat} {s s' : St} {o : Op} (h : Only 
     split
     · exact h
     · exact only_arm_other h (by intro he; subst he; simp [arms] at ho) _
+  | dial n =>
+    simp only [step] at hs; cases hs
+    split
+    · exact h
+    · exact only_arm_other h (by intro he; subst he; simp [arms] at ho) _
+  | connected =>
+    simp only [step] at hs; cases hs
+    split
+    · exact h
+    · exact only_stop h .w
   | write k =>
     simp only [step] at hs; cases hs
     unfold stepWrite
